@@ -326,6 +326,12 @@ static void explore(const QByteArray &in, const std::string &docId, const std::s
     QDomElement root = inDoc.documentElement();
     Summary sin = summarizeElement(root);
     const QString ctxNs = root.namespaceURI();
+    // Input features outside anything the library writes, each known to be normalised over more than one pass by a generic mechanism
+    // (QXmppElement drops xmlns=""; of several <error/> children one becomes the error field, the rest pass through as extensions and
+    // rotate). For such inputs the key carries the feature instead of the first differing path, which would vary with the payload.
+    int errorKids = 0;
+    for (auto c = root.firstChildElement(); !c.isNull(); c = c.nextSiblingElement()) if (c.tagName() == u"error") errorKids++;
+    const std::string inputFeature = sin.nsUndeclared ? "input-has-xmlns-undeclaration" : errorKids > 1 ? "input-has-several-error-children" : "";
 
     for (size_t p = 0; p < g_table.size(); p++) {
         if (int(p) <= resumeParser) continue;
@@ -418,7 +424,7 @@ static void explore(const QByteArray &in, const std::string &docId, const std::s
                 if (s2.canaries > sin.canaries && !failed) { failLine("C01:markup-injection:" + fam(c.name), c.name, docId, mutDesc, in, o1, o2, {}, "canary element in o2"); failed = true; }
                 if (s1.ordered != s2.ordered) {
                     if (s1.sorted == s2.sorted) st->counters[C_OWN_ORDER_ONLY]++;
-                    else { failBoth(fam(c.name) + ":" + (sin.nsUndeclared ? std::string("input-has-xmlns-undeclaration") : diffSig(r1, r2)), c.name, docId, mutDesc, in, o1, o2, ""); failed = true; }
+                    else { failBoth(fam(c.name) + ":" + (!inputFeature.empty() ? inputFeature : diffSig(r1, r2)), c.name, docId, mutDesc, in, o1, o2, ""); failed = true; }
                 }
                 TestClient::resetIds();
                 st->phase = PH_RUN3;
@@ -434,7 +440,7 @@ static void explore(const QByteArray &in, const std::string &docId, const std::s
                     failed = true;
                 } else if (s2.ordered != s3.ordered) {
                     if (s2.sorted == s3.sorted) st->counters[C_FIX_ORDER_ONLY]++;
-                    else { failLine("C02:not-fixpoint-after-2-passes:" + fam(c.name) + ":" + (sin.nsUndeclared ? std::string("input-has-xmlns-undeclaration") : diffSig(r2, r3)), c.name, docId, mutDesc, in, o1, o2, o3, "o2 != o3"); failed = true; }
+                    else { failLine("C02:not-fixpoint-after-2-passes:" + fam(c.name) + ":" + (!inputFeature.empty() ? inputFeature : diffSig(r2, r3)), c.name, docId, mutDesc, in, o1, o2, o3, "o2 != o3"); failed = true; }
                 } else if (o2.size() < 20000 && s2.maxDepth < 200 && (st->counters[C_RUNS] & 7) == 0) {   // sampled: every 8th
                     // cross-check the hashed comparison with the declaration-level canonical form shared with the Lean side
                     st->counters[C_XCHECK]++;
@@ -684,7 +690,9 @@ int main(int argc, char **argv)
     __sanitizer_install_malloc_and_free_hooks(onMalloc, onFree);
     Pool pool;
     pool.workers = g_cfg.workers;
-    pool.workDir = root + "/.build/harness/parsers.work";
+    // one work directory per run: several checks (C01 and C02 both use this harness) may run at the same time
+    ::mkdir((root + "/.build/harness/parsers.work").c_str(), 0755);
+    pool.workDir = root + "/.build/harness/parsers.work/" + std::to_string(getpid());
     pool.tag = "p";
     pool.init();
     g_failDir = root + "/.build/harness/parsers.fail";
@@ -1064,6 +1072,10 @@ int main(int argc, char **argv)
             }
     for (auto &kv : failCount) vh::stat("failcount:" + kv.first, kv.second);
     if (pool.crashStorms) printf("O FAIL C02:harness:crash-storm\t%d batches abandoned after too many child crashes\n", pool.crashStorms);
+    if (crashes == 0) {   // crashed batches keep their output for diagnosis
+        std::string cmd = "rm -rf '" + pool.workDir + "'";
+        if (system(cmd.c_str()) != 0) { /* best effort */ }
+    }
     vh::finish();
     return 0;
 }
